@@ -14,10 +14,9 @@ TRUSTED = [
 ASSUMPTIONS = [
     "statement granularity = CPython `line` trace events; pre-emption inside a statement (bytecode level) and the GIL hand-off are not modelled",
     "no mutation of an rruleset while iterators are live (that is C10's history domain)",
-    "the underlying generator (`self._iter()`) NEVER RAISES anything but StopIteration: in the model `next(gen)` yields the next value of a finite "
-    "list or ends. When it does raise (e.g. a set with a naive and an aware date) the cached object differs from the uncached one afterwards: "
-    "known finding D-C11-genraise (oracle case generator_raises)",
-    "query methods are paused only at their first statement (the fast-path test) and inside __iter__/_iter_cached; their other statements touch only thread-local state",
+    "the positive theorems assume the underlying generator (`self._iter()`) never raises anything but StopIteration (SInv.noraise); the raising outcome of "
+    "line 138 IS modelled (Cache.step138) and the negation is proved on the model (genraise_cached_differs): known finding D-C11-genraise, "
+    "accepted only where implementation = model (oracle case generator_raises, op query.runx)",
 ]
 RULE = ("schedules: (a) every next()-interleaving with <= 2 (thorough 3) switches of 2-3 iterators over src lengths 0,1,9,10,11,19,20,21; "
         "(b) statement granularity: 2 threads, every single pre-emption point k0, a grid of (k0,k1) double pre-emptions, 3 threads with 2 "
@@ -323,24 +322,57 @@ def judge_nested(ctx, r):
 
 # ------------------------------------------------------------------ C12 histories through the machine
 
+def partial_then_len(rng, L):
+    """a partial query (index, early-exit in/after/between/xafter, abandoned iteration) followed by count() / len-dependent queries"""
+    n = len(L)
+    t = rrlib.instants_near(L, rng, 2)
+    part = rng.choice([("idx", rng.randint(0, max(0, n - 1))), ("take", rng.randint(0, n)), ("in", t[0]), ("aft", t[0], rng.random() < 0.5),
+                       ("btw", min(t), max(t), rng.random() < 0.5), ("xaf", t[0], rng.choice([0, 1, 2]), rng.random() < 0.5),
+                       ("sl", 0, rng.randint(0, n), None), ("bef", t[0], rng.random() < 0.5)])
+    tail = rng.choice([[("cnt",)], [("cnt",), ("idx", -1)], [("cnt",), ("all",)], [("idx", -1), ("cnt",)], [("sl", -2, None, None), ("cnt",)]])
+    return [part] + tail
+
+
 def history_correspondence(ctx, rng, count):
     reqs, exp = [], []
-    for _ in range(count):
+    stash = getattr(ctx, "_qhist", [])
+    ctx._qhist = stash
+    for i in range(count):
         n = rng.choice(LENGTHS + [3, 5, 12])
         kind = rng.choice(["daily", "set"])
         fac, L = mk(kind, n)
-        cache = rng.random() < 0.7
+        cache = rng.random() < (0.7 if i % 3 else 0.3)
         rule = fac(cache)
-        qs = [rrlib.random_query(rng, L) for _ in range(rng.randint(1, 7))]
+        if i % 3 == 0:
+            qs = partial_then_len(rng, L) + [rrlib.random_query(rng, L) for _ in range(rng.randint(0, 2))]
+        else:
+            qs = [rrlib.random_query(rng, L) for _ in range(rng.randint(1, 7))]
         outs = [rrlib.impl_query(rule, q).replace(" ", "_") for q in qs]
         reqs.append("query.run %s %d %s" % (ilist(L), int(cache), ";".join(q_wire(q) for q in qs)))
         exp.append("ok " + ";".join(outs))
+        stash.append({"rule": kind, "n": n, "cache": cache, "L": L, "qs": [list(q) for q in qs], "outs": outs})
     got = ctx.driver(reqs)
     for r, e, g in zip(reqs, exp, got):
         if e != g:
             ctx.mismatch("query.run", {"request": r}, e, g)
     ctx.traces += len(reqs)
     ctx.count("corr_query_histories", len(reqs))
+
+
+def judge_query_histories(ctx):
+    """the histories the correspondence ran, against the Python-side reference (list semantics), not the model"""
+    for h in getattr(ctx, "_qhist", []):
+        L = h["L"]
+        qs = [tuple(q) for q in h["qs"]]
+        ctx.case(("qhist", h["rule"], h["n"], h["cache"], tuple(qs)), nontrivial=all(o.startswith("ok") for o in h["outs"]))
+        ctx.count("oracle_rejudged_query_histories")
+        for j, (q, o) in enumerate(zip(qs, h["outs"])):
+            want = py_query(L, q).replace(" ", "_")
+            if o != want:
+                ctx.violation("query %d (%s) of history %s on %s rule of length %d (cache=%s): got %s, list semantics %s"
+                              % (j, q_wire(q), ";".join(q_wire(x) for x in qs), h["rule"], h["n"], h["cache"], o, want),
+                              {"kind": "qhist", "rule": h["rule"], "n": h["n"], "cache": h["cache"], "qs": h["qs"]}, {"impl": o, "list": want})
+                break
 
 
 def correspondence(ctx):
@@ -417,6 +449,7 @@ def oracle(ctx):
             runs.append({"kind": "threads", "rule": kind, "n": n, "L": L, "qs": [list(q) for q in qs], "segs": [list(s) for s in segs], "res": res, "st": st})
     for r in runs:
         {"nexts": judge_nexts, "threads": judge_threads, "nested": judge_nested}[r["kind"]](ctx, r)
+    judge_query_histories(ctx)
     # a second, independent stream of random schedules (and, when escalated, the thorough budget)
     rng = ctx.subrng("oracle")
     for _ in range(ctx.budget(150, 4000)):
@@ -438,13 +471,65 @@ def oracle(ctx):
                 "out": run_nexts_case("daily", 13, 2, ["n1"] + ["n0"] * 14 + ["n1"] * 14)[1]})
 
 
+class Flaky(object):
+    """a member 'rule' whose iterator yields k instants and then raises ZeroDivisionError (not StopIteration)"""
+    def __init__(self, L, k):
+        self.L, self.k = L, k
+
+    def __iter__(self):
+        for x in self.L[:self.k]:
+            yield rrlib.to_dt(x)
+        1 // 0
+
+
 def generator_raises(ctx):
-    """the underlying generator RAISES (a naive and an aware rdate cannot be ordered): the uncached set raises TypeError on every
-    operation; a cached one must behave the same.  The model assumes the underlying generator never raises (ASSUMPTIONS);
-    what the code does instead is known finding D-C11-genraise, accepted only in exactly its documented shape."""
+    """the underlying generator RAISES: an uncached rule raises in every operation that reaches the raising point; a cached
+    one must behave the same.  It does not (known finding D-C11-genraise); the Lean model has the raising outcome of
+    line 138 (Cache.step138) and reproduces what the code does: a difference cached/uncached is KNOWN only when the
+    implementation equals the model in BOTH modes (query.runx)."""
     from dateutil import rrule as R
     import datetime as D
-
+    rng = ctx.subrng("genraise")
+    cases = []
+    for k in (0, 1, 5, 10, 11, 15):
+        L = [7 * i + 3 for i in range(k + 3)]
+        scripts = [[("all",), ("all",), ("all",), ("cnt",), ("in", L[0])], [("idx", min(3, max(0, k - 1))), ("all",), ("all",), ("cnt",), ("idx", 0)]]
+        for _ in range(ctx.budget(2, 12)):
+            scripts.append([rrlib.random_query(rng, L[:k]) for _ in range(rng.randint(2, 6))])
+        for qs in scripts:
+            cases.append((L, k, qs))
+    reqs = []
+    outs = []
+    for L, k, qs in cases:
+        per = {}
+        for cache in (False, True):
+            s = R.rruleset(cache=cache)
+            s.rrule(Flaky(L, k))
+            per[cache] = [rrlib.impl_query(s, q).replace(" ", "_") for q in qs]
+            reqs.append("query.runx %s %d %d %s" % (ilist(L), k, int(cache), ";".join(q_wire(q) for q in qs)))
+        outs.append(per)
+    try:
+        got = ctx.driver(reqs)
+    except Exception:
+        got = ["-"] * len(reqs)
+    for i, ((L, k, qs), per) in enumerate(zip(cases, outs)):
+        m_unc = got[2 * i][3:].split(";") if got[2 * i].startswith("ok ") else []
+        m_c = got[2 * i + 1][3:].split(";") if got[2 * i + 1].startswith("ok ") else []
+        ctx.case(("genraise", k, tuple(qs)), nontrivial=True)
+        ctx.count("generator_raises_case")
+        agrees = (per[False] == m_unc and per[True] == m_c)
+        if not agrees:
+            ctx.count("generator_raises_model_differs")
+        if per[True] != per[False]:
+            ctx.violation("the underlying generator raises after %d values; queries %s: the uncached set gives %s, the cached one %s"
+                          % (k, ";".join(q_wire(q) for q in qs), per[False], per[True]),
+                          {"kind": "genraise", "k": k, "qs": [list(q) for q in qs], "cached": per[True], "uncached": per[False],
+                           "model_reproduces": agrees}, {"model_cached": m_c, "model_uncached": m_unc})
+        elif not agrees:
+            ctx.violation("the underlying generator raises after %d values; queries %s: implementation %s / %s, model %s / %s"
+                          % (k, ";".join(q_wire(q) for q in qs), per[False], per[True], m_unc, m_c),
+                          {"kind": "genraise-model", "k": k, "qs": [list(q) for q in qs], "model_reproduces": False}, None)
+    # the documented witness (a naive and an aware date: TypeError from the sort, k = 0)
     def outcomes(cache):
         s = R.rruleset(cache=cache)
         s.rdate(D.datetime(2020, 1, 1)); s.rdate(D.datetime(2020, 1, 2, tzinfo=D.timezone.utc))
@@ -455,12 +540,12 @@ def generator_raises(ctx):
             except Exception as ex:
                 out.append(type(ex).__name__)
         return out
-    want, got = outcomes(False), outcomes(True)
-    ctx.case(("generator-raises",), nontrivial=True)
-    ctx.count("generator_raises_case")
-    if got != want:
-        ctx.violation("the underlying generator raises: the uncached set gives %s on list, list, list, count, in; the cached one gives %s" % (want, got),
-                      {"kind": "genraise", "cached": got, "uncached": want}, None)
+    want, gotw = outcomes(False), outcomes(True)
+    ctx.case(("generator-raises-witness",), nontrivial=True)
+    if gotw != want:
+        ctx.violation("witness: the uncached set gives %s on list, list, list, count, in; the cached one gives %s" % (want, gotw),
+                      {"kind": "genraise", "cached": gotw, "uncached": want,
+                       "model_reproduces": gotw == GENRAISE_DOCUMENTED and want == ["TypeError"] * 5}, None)
 
 
 GENRAISE_DOCUMENTED = ["TypeError", "TypeError", "[]", "None", "False"]
@@ -493,10 +578,9 @@ def free_running_smoke(ctx):
 
 
 KNOWN = {
-    # accepted only in exactly the documented shape: first listing raises like the uncached set, the second raises TypeError from
-    # `i < self._len` (None), after that the object claims to be a complete EMPTY sequence with count() None
-    "D-C11-genraise": lambda v: v["case"].get("kind") == "genraise" and v["case"].get("cached") == GENRAISE_DOCUMENTED
-    and v["case"].get("uncached") == ["TypeError"] * 5,
+    # a cached object differs from the uncached one after the underlying generator raised — accepted only when the implementation
+    # does exactly what the Lean model of the code (raising outcome of line 138) predicts, in both modes
+    "D-C11-genraise": lambda v: v["case"].get("kind") == "genraise" and bool(v["case"].get("model_reproduces")),
 }
 
 
@@ -514,6 +598,16 @@ def replay(ctx, payload):
         L, tr, fin, res, st = run_thread_case(c["rule"], c["n"], qs, segs)
         print("replay threads n=%d queries=%s schedule=%s -> statuses %s answers %s" % (c["n"], [q_wire(q) for q in qs], sched.seg_wire(segs), st, res))
         return all(s == "done" for s in st) and all(g == py_query(L, q) for q, g in zip(qs, res))
+    if c.get("kind") == "qhist":
+        fac, L = mk(c["rule"], c["n"])
+        rule = fac(c["cache"])
+        ok = True
+        for q in c["qs"]:
+            q = tuple(q)
+            got, want = rrlib.impl_query(rule, q), py_query(L, q)
+            print("replay %s: impl=%s list=%s" % (q_wire(q), got, want))
+            ok = ok and got == want
+        return ok
     if c.get("kind") == "nested":
         ms = c["ms"]
         sets = [([tuple(x) if x[0] == "m" else ("p", x[1]) for x in a], [tuple(x) if x[0] == "m" else ("p", x[1]) for x in b]) for a, b in c["sets"]]
